@@ -164,8 +164,9 @@ class Deseasonalizer(_SeriesToSeriesTransformer):
         self : an instance of self
         """
         self.check_is_fitted()
-        z = check_series(Z, enforce_univariate=True)
-        self._set_y_index(z)
+        check_series(Z, enforce_univariate=True)
+        # the seasonal components stay aligned with the series they were estimated
+        # on, so the reference time index must not be moved to the new data
         return self
 
 
